@@ -243,6 +243,54 @@ def gen_handshake(rng) -> Case:
     return Case(ops=ops, tag="handshake")
 
 
+SPECIAL_NONCES = [0, 0, 1, 2 ** 32 - 1, 2 ** 32, 2 ** 63, U64 - 1]
+
+
+def vary_until(rng, enc_of, nonce, d, want_accept, tries=400):
+    """a field variation k (1..) such that the digest for the FIXED special nonce meets (or misses) d bits"""
+    start = rng.randrange(1, 10 ** 6)
+    for k in range(start, start + tries):
+        ok = lz(hashlib.sha256(enc_of(k)(nonce)).digest()) >= d
+        if ok == want_accept:
+            return k
+    return None
+
+
+def gen_special(rng) -> Case:
+    """special nonce values (0, 1, 2^32-1, 2^32, 2^63, 2^64-1) on every surface: the fields are varied until the digest FOR THAT NONCE
+    meets the target, and until it misses it, so both verdicts are exercised for the special nonce itself"""
+    ops = []
+    surface = rng.choice(["handshake", "handshake", "announce", "store", "token"])
+    d = rng.choice([1, 2, 3, 4, 4, 5])
+    n = rng.choice(SPECIAL_NONCES)
+    for want in (True, False):
+        if surface == "handshake":
+            b = rid(rng, "ef")
+            pub = rng.choice([2, 2147483646, rng.randrange(2, 2147483647)])
+            k = vary_until(rng, lambda k: (lambda x: enc_handshake(f"a{k}", b, pub, x)), n, d, want)
+            if k is not None:
+                ops += [f"hsnode {d} a{k} {b} {pub} {n}", f"hs a{k} {b} {pub} {n} {d}", f"hscli a{k} {b} {pub} {n} {d}",
+                        f"hsnode {rng.choice([0, d - 1, d + 1])} a{k} {b} {pub} {n}"]
+        elif surface == "announce":
+            p, ep, uri, sh, ttl = rid(rng, "pq"), b"10.0.0.1:45000", b"eph://x", bytes([1]), rng.choice([30, 3600])
+            k = vary_until(rng, lambda k: (lambda x: enc_announce(f"c{k}", p, ep, uri, sh, ttl, x)), n, d, want)
+            if k is not None:
+                head = f"c{k} {p} {hx(ep)} {hx(uri)} {hx(sh)} {ttl}"
+                ops += [f"ann {head} {n} {d}", f"annnode {d} 3 {head} {n}"]
+        elif surface == "store":
+            size, hint = rng.choice([1, 4096, 2 ** 32 + 5]), rng.choice([b"", b"a.txt"])
+            k = vary_until(rng, lambda k: (lambda x: enc_store(f"c{k}", size, hint, x)), n, d, want)
+            if k is not None:
+                ops.append(f"store c{k} {size} {hx(hint)} {n} {d}")
+        else:
+            nt = n if n <= 1 else rng.choice([0, 1])      # the token op walks the solver's attempts: small nonces only
+            h, ep = rid(rng, "hk"), b"127.0.0.1:47777"
+            k = vary_until(rng, lambda k: (lambda x: enc_token(f"c{k}", h, ep, x)), nt, d, want)
+            if k is not None:
+                ops += [f"tok c{k} {h} {hx(ep)} {nt} {d}", f"toksolve c{k} {h} {hx(ep)} {d} 500000"]
+    return Case(ops=ops or ["hint 61"], tag="special-nonce")
+
+
 def gen_store(rng) -> Case:
     ops = []
     c = rid(rng, "cd")
@@ -357,7 +405,9 @@ def _generate(ctx, budget):
     n_cli = 10 if ctx.tier == "quick" else 80
     for i in range(budget):
         r = rng.random()
-        if i < 256 or r < 0.15:
+        if i >= 256 and r > 0.9:
+            out.append(gen_special(rng))
+        elif i < 256 or r < 0.15:
             out.append(gen_counters(rng, i))
         elif r < 0.35:
             out.append(gen_announce(rng))
@@ -365,7 +415,7 @@ def _generate(ctx, budget):
             out.append(gen_handshake(rng))
         elif r < 0.72:
             out.append(gen_store(rng))
-        elif r < 0.85:
+        elif r < 0.82:
             out.append(gen_token(rng))
         else:
             out.append(gen_hint(rng))
@@ -406,7 +456,9 @@ def spec() -> Spec:
         rule="streams: counters (crafted digests with exactly k leading zero bits for every difficulty 0..255, k in {d-1,d,d+1}, patterns "
              "00..0 / 0..01 / 0..01ff.. / random tail, also 0/1/2/31/33/40-byte digests); announce / handshake (node and CLI) / store / "
              "token (random and boundary field lengths 0,1,55,56,63,64,255,256, TTL incl. negative and int64 limits, nonces 0..2^64-1, "
-             "difficulties 0..255; nonces aimed so that the digest has exactly d and d-1 leading zero bits; one byte moved across a field "
+             "difficulties 0..255; nonces aimed so that the digest has exactly d and d-1 leading zero bits; special nonce values "
+             "0, 1, 2^32-1, 2^32, 2^63, 2^64-1 on every surface with the fields varied until the digest for THAT nonce meets / misses 1-5 bits; "
+             " one byte moved across a field "
              "boundary; swapped roles); real solvers at 0..12 bits incl. attempt limits 0/1/3/50; filename hints (slashes, dots, 254/255/256 "
              "bytes, CR/LF, high bytes); the real CLI store command against a real daemon with such names; distinct = sha256 of the op "
              "list; non-trivial = an accepted (bits>0) and a refused nonce in the same case, a solved nonce, a counter or CLI case",
